@@ -13,7 +13,7 @@ func init() {
 		ID:    "C05",
 		Title: "Written entity's media type is produced by the route and best for Accept",
 		Decided: "C05.a every piece cut from Accept / Content-Type / Access-Control-Request-Headers is trimmed after its last cut before it is compared, looked up or parsed (router and writer side alike); C05.b no result-affecting dependence on map iteration order on the request path; C05.c Content-Type is set before the status is written, with the accessor's own type, which the built-in registrations bind to the key they are registered under; " +
-			"C05.d the Response is given the request's Accept header verbatim and the selected route's Produces; C05.e inside the negotiation loop an entity writer is only returned for a media type taken from the route's Produces (directly, or an Accept range shown equal to a Produces entry); C05.f Accept ranges are ranked by a stable insertion (strictly-greater test), not by an unstable sort.",
+			"C05.d the Response is given the request's Accept header verbatim and the selected route's Produces; C05.e inside the negotiation loop an entity writer is only returned for a media type taken from the route's Produces (directly, or an Accept range shown equal to a Produces entry); C05.g a framework filter passes on the pair it received; C05.h registry keys are normalised alike on registration and lookup; C05.f Accept ranges are ranked by a stable insertion (strictly-greater test), not by an unstable sort.",
 		NotDecided: "the q-value ordering and the fallback order as values (ranking semantics over the Accept grammar); 'never 406 after the router admitted' beyond C05.a, which removes the only divergence found by reading.",
 		Rules: []Rule{
 			{ID: "C05.a", Template: "T-TOKEN", Required: true, Run: ruleTokenAll,
@@ -28,6 +28,10 @@ func init() {
 				Doc: "The negotiated type is one the route produces: no global default may be consulted while Accept ranges are being walked."},
 			{ID: "C05.f", Template: "T-CMP", Required: true, Run: ruleC05f,
 				Doc: "Header order on ties: equal q keeps header order. sort.Slice/sort.Sort are not stable (only small inputs happen to be), and a non-strict insertion test reverses ties."},
+			{ID: "C05.g", Template: "T-PROV", Required: true, Run: ruleC15e,
+				Doc: "The Response the handler writes to is the one that was given the route's Produces and the request's Accept: a framework filter continues the chain with the very pair it received, never with a new wrapper (which knows neither and negotiates against nothing)."},
+			{ID: "C05.h", Template: "T-SIBLING", Required: true, Run: ruleKeyAgreement,
+				Doc: "The entity-accessor registry is written and read under the same key: whatever normalisation is applied to the media type on registration must be applied on lookup. Lower-casing on registration only makes an accessor registered for a mixed-case Produces entry unreachable by the exact lookup, and the substring fallback then answers with another type's accessor."},
 		},
 	})
 }
